@@ -1889,3 +1889,108 @@ func c09r12(c *RC) {
 	})
 	c.Floor("batch loops in runCombine", n, 1)
 }
+
+// C12-R8: the local executor stores a task's output before it calls the task
+// done, and records the error of a task it calls failed.
+//
+// (*localExecutor).Reader serves a task from l.buffers[task] and answers
+// "no data" otherwise.  In (*localExecutor).Run the write of TaskOk to the
+// task's state is therefore preceded, in its own block, by the store
+// l.buffers[task] = <the buffer bufferOutput returned>; and in the block that
+// writes TaskErr or TaskLost the task's err field is assigned the error that
+// decided the branch.  (Both statements survived deletion in the mutation
+// sweep: the run "succeeds" and every later read of the result fails, or the
+// evaluation fails with a nil cause.)
+func c12r8(c *RC) {
+	pr := c.P
+	fn := c.MustFn("exec.(*localExecutor).Run")
+	if fn == nil {
+		return
+	}
+	fq := fn.QName()
+	// the buffer returned by bufferOutput
+	buf, errv := "", ""
+	inspectNoLit(fn.Body, func(nd ast.Node) bool {
+		if as, ok := nd.(*ast.AssignStmt); ok && len(as.Lhs) == 2 && len(as.Rhs) == 1 {
+			if k, ok := ast.Unparen(as.Rhs[0]).(*ast.CallExpr); ok && fn.Pkg.CalleeName(k) == "exec.bufferOutput" {
+				buf, errv = expr(as.Lhs[0]), expr(as.Lhs[1])
+			}
+		}
+		return true
+	})
+	if buf == "" {
+		c.Undecide("%s: no call of bufferOutput", fq)
+		return
+	}
+	task := ""
+	if fn.Type.Params != nil && len(fn.Type.Params.List) > 0 && len(fn.Type.Params.List[0].Names) > 0 {
+		task = fn.Type.Params.List[0].Names[0].Name
+	}
+	nOK, nFail := 0, 0
+	okStored, failRecorded := true, true
+	ast.Inspect(fn.Body, func(nd ast.Node) bool {
+		blk, ok := nd.(*ast.BlockStmt)
+		if !ok {
+			return true
+		}
+		for i, st := range blk.List {
+			as, ok := st.(*ast.AssignStmt)
+			if !ok || len(as.Lhs) != 1 || len(as.Rhs) != 1 {
+				continue
+			}
+			se, ok := as.Lhs[0].(*ast.SelectorExpr)
+			if !ok || pr.fieldQName(fn.Pkg.FieldOf(se)) != "exec.Task.state" {
+				continue
+			}
+			v, isC := constInt(fn.Pkg, as.Rhs[0])
+			if !isC {
+				continue
+			}
+			okV, _ := pr.constVal("exec", "TaskOk")
+			if v == okV {
+				nOK++
+				stored := false
+				for _, prev := range blk.List[:i] {
+					if pa, ok := prev.(*ast.AssignStmt); ok && len(pa.Lhs) == 1 && len(pa.Rhs) == 1 {
+						if ix, ok := pa.Lhs[0].(*ast.IndexExpr); ok {
+							if bse, ok := ix.X.(*ast.SelectorExpr); ok && pr.fieldQName(fn.Pkg.FieldOf(bse)) == "exec.localExecutor.buffers" && expr(ix.Index) == task && expr(pa.Rhs[0]) == buf {
+								stored = true
+							}
+						}
+					}
+				}
+				if !stored {
+					okStored = false
+				}
+			} else if v > okV {
+				nFail++
+				// the error is recorded in the block that contains the enclosing if/else chain
+				recorded := false
+				for _, anc := range pathTo(fn.Body, as) {
+					b2, ok := anc.(*ast.BlockStmt)
+					if !ok {
+						continue
+					}
+					for _, st2 := range b2.List {
+						if ea, ok := st2.(*ast.AssignStmt); ok && len(ea.Lhs) == 1 && len(ea.Rhs) == 1 {
+							if ese, ok := ea.Lhs[0].(*ast.SelectorExpr); ok && pr.fieldQName(fn.Pkg.FieldOf(ese)) == "exec.Task.err" && expr(ea.Rhs[0]) == errv {
+								// same branch of the err test: the innermost block that contains both
+								if b2.Pos() <= as.Pos() && as.End() <= b2.End() && b2 != fn.Body {
+									recorded = true
+								}
+							}
+						}
+					}
+				}
+				if !recorded {
+					failRecorded = false
+				}
+			}
+		}
+		return true
+	})
+	c.Check(nOK > 0 && okStored, fq+"|output-stored-before-ok", pr.Pos(fn.Body.Pos()),
+		"the local executor marks a task OK on a path where its output buffer was not stored under the task first: the run succeeds, and every reader of the task (a dependent task, a scan of the result) is told there is no data")
+	c.Check(nFail > 0 && failRecorded, fq+"|failure-cause-recorded", pr.Pos(fn.Body.Pos()),
+		"the local executor marks a task failed or lost without recording the error that decided it: the evaluation reports a failure with a nil cause (or a lost task is retried with no trace of why)")
+}
